@@ -14,7 +14,7 @@ typestate.  Obligations are checked on those paths:
 Bounded, not parametric: the claim is for lists of length <= N and at most R retries; see DESIGN.md.
 """
 from common import RuleResult, Violation
-from interp import Undecided, State, Ref, Const
+from interp import UNIT, Undecided, State, Ref, Const
 import listmodel
 from rules_struct import rawlock_impl_fns, HL_SEM, _floc
 
@@ -32,28 +32,54 @@ def _dyn_elem_ty():
             "ty": {"k": "dyn", "principal": "lockable::RawLock", "s": "dyn lockable::RawLock", "preds": [], "region": {"k": "erased"}}}
 
 
-def explore(ctx, fn, n, mode, kind, faults=1, loop_limit=None, preheld=None):
-    """Enumerate the abstract paths of one algorithm function on a list of length n."""
-    key = (ctx.path, fn["id"], n, faults, loop_limit, preheld)
+def _is_root_data(I, st, v):
+    """a `&L` / `&mut L` whose pointee type is a type parameter: the abstract lockable a collection was built over"""
+    t = None
+    if v[0] == "op":
+        t = I.optype.get(v[1])
+        if t is not None and t["k"] in ("ref", "ptr"):
+            t = t["ty"]
+    elif v[0] == "ref":
+        t = I.loc_ty(v[1])
+    return t is not None and t["k"] == "param"
+
+
+def data_model(I, st, n, addrs=None, lid=LID):
+    """Put interpreter I into data-model mode: the abstract lockable has n leaves LIST.[0..n) (in get_ptrs order) with the
+    given model addresses; Vec / HashSet values are modelled; every helper is inlined.  Returns the leaf list view."""
+    lst = listmodel.new_list(I, lid, n, _dyn_elem_ty())
+    I.model_vecs = True
+    I.addrs = {lid: list(addrs) if addrs is not None else list(range(n))}
+
+    def hook(I_, st_, fn_, ce, args, line, depth):
+        if not _is_root_data(I_, st_, args[0]):
+            return None
+        I_.emit(st_, {"k": "GETPTRS", "recv": "<data>", "into": args[1], "impl": ce.get("def"), "model": True}, fn_, line)
+        items = [I_.load(st_, listmodel.elem_loc(lid, k)) for k in range(n)]
+        loc, v = listmodel._vec_at(I_, st_, args[1])
+        if v is None:
+            raise Undecided("get_ptrs of the modelled data into an unmodelled vector")
+        I_.store(st_, loc, listmodel.make_list(I_, st_, listmodel.items_of(I_, st_, v) + items))
+        return [("ret", UNIT, st_)]
+    I.getptrs_hook = hook
+    return lst
+
+
+def explore(ctx, fn, n, mode, kind, faults=1, loop_limit=None, preheld=None, addrs=None):
+    """Enumerate the abstract paths of one collection operation over a lockable with n leaves (helpers inlined)."""
+    key = (ctx.path, fn["id"], n, faults, loop_limit, preheld, tuple(addrs) if addrs else None)
     if key in _cache:
         return _cache[key]
     I = ctx.M["make"]()
-    # the algorithms themselves are analysed, not summarised
+    # the algorithms and the list helpers are analysed (inlined), not summarised: their names and shapes do not matter
     for p in list(I.primitives):
-        if ctx.A.mode_kind(ctx.A.role_of(p)):
+        if p in ctx.A.role:
             del I.primitives[p]
     I.max_faults = faults
     I.state_limit = 5000000
     I.loop_limit = loop_limit or (n + 3)
     st = State()
-    lst = listmodel.new_list(I, LID, n, _dyn_elem_ty())
-
-    def prim_get_locks(I_, st_, fn_, tdef, args, line, dest_ty, may_unwind):
-        I_.emit(st_, {"k": "PRIM", "def": tdef, "args": args}, fn_, line)
-        return [("ret", lst, st_)]
-    for role in ("get_locks_unsorted", "get_locks"):
-        if role in ctx.A.by_role:
-            I.primitives[ctx.A.by_role[role]] = prim_get_locks
+    lst = data_model(I, st, n, addrs)
     m = fn["mir"]
     args = []
     for i in range(1, m["arg_count"] + 1):
@@ -65,7 +91,8 @@ def explore(ctx, fn, n, mode, kind, faults=1, loop_limit=None, preheld=None):
             I.oploc[rid] = ("O", rid, ())
             I.optype[rid] = t
             args.append(("op", rid, None))
-    # sorting collections keep their list in a field: `self.locks` is the modelled list
+    # sorting collections keep their list in a field: `self.locks` is the leaf list sorted by address (L2 decides that the
+    # constructors establish exactly this)
     if m["arg_count"] >= 1:
         t = m["locals"][1]["ty"]
         base = t["ty"] if t["k"] == "ref" else t
@@ -73,7 +100,10 @@ def explore(ctx, fn, n, mode, kind, faults=1, loop_limit=None, preheld=None):
             from rules_struct import lock_list_field
             lf = lock_list_field(ctx, base["path"])
             if lf is not None:
-                st.heap[("O", "a1", ("*", lf))] = lst
+                A_ = I.addrs[LID]
+                order = sorted(range(n), key=lambda k: A_[k])
+                items = [I.load(st, listmodel.elem_loc(LID, k)) for k in order]
+                st.heap[("O", "a1", ("*", lf))] = listmodel.make_list(I, st, items, _dyn_elem_ty())
     # precondition of release-style functions: the listed locks are held
     if preheld:
         for k in range(n):
@@ -115,28 +145,18 @@ def faulted_elem(p):
     return f[0] if f else None
 
 
+COLL_LABEL = {"collection::BoxedLockCollection": "Boxed", "collection::RefLockCollection": "Ref",
+              "collection::OwnedLockCollection": "Owned", RETRY: "Retrying"}
+
+
 def alg_functions(ctx):
-    """(fn, label, kind, mode, preheld)"""
+    """(fn, label, kind, mode, preheld): the six lock operations of each of the four collections.  They are public-trait
+    API; the crate-private helpers they are built from are inlined, so their names, number and shapes do not matter."""
     out = []
-    F = ctx.F
-    for path, role in sorted(ctx.A.role.items()):
-        km = ctx.A.mode_kind(role)
-        if not km:
-            continue
-        kind, mode = km
-        try:
-            f = F.fn(path)
-        except KeyError:
-            continue
-        out.append((f, path.split("::")[-1], kind, mode, mode if kind == "RECOVER" else None))
-    for adt, name, f in rawlock_impl_fns(ctx, {RETRY}):
+    for adt, name, f in rawlock_impl_fns(ctx, set(COLL_LABEL)):
         if name in HL_SEM:
             kind, mode = HL_SEM[name]
-            out.append((f, "Retrying::" + name, kind, mode, mode if kind == "REL" else None))
-    for adt, name, f in rawlock_impl_fns(ctx, {"collection::OwnedLockCollection", "collection::BoxedLockCollection",
-                                               "collection::RefLockCollection"}):
-        if name in HL_SEM and HL_SEM[name][0] == "REL":
-            out.append((f, adt.split("::")[-1].replace("LockCollection", "") + "::" + name, "REL", HL_SEM[name][1], HL_SEM[name][1]))
+            out.append((f, COLL_LABEL[adt] + "::" + name, kind, mode, mode if kind == "REL" else None))
     return out
 
 
